@@ -236,3 +236,76 @@ Theorem C06_value_sums_do_not_depend_on_order :
   forall (prof : profile) (l l' : list N), Permutation.Permutation l l' -> Rust.sum_p prof l = Rust.sum_p prof l'.
 Proof. exact RustFacts.sum_p_perm. Qed.
 Print Assumptions C06_value_sums_do_not_depend_on_order.
+
+(** The two housekeeping steps of the model are the source's.  NodeState::htlc_fulfilled (whole body,
+    translated in state-passing style; the hash of the preimage is an opaque value [ph]) records the
+    preimage only in a payment record that exists: the state it leaves abstracts to the model's
+    [PFulfil] step - [pre x := pre x || ((x =? ph) && known ph)], [known], [led] and [inv] unchanged -
+    and it never panics when the record's sums fit u64 and enforce_balance is off.  The issued-invoice
+    flag it also sets and the boolean it returns are outside the model. *)
+Theorem C06_fulfil_is_source :
+  forall (prof : profile) (swarn : String.string -> bool) (gp : CommitmentPolicyGen.SimplePolicy)
+         (chs : N -> pchan) (ph : N) (ns : NodePaymentsGen.NodeState) (ch preimage vid : N),
+    CommitmentPolicyGen.SimplePolicy_enforce_balance gp = false ->
+    (forall p, Rust.map_get (NodePaymentsGen.NodeState_payments ns) ph = Some p ->
+               sum_N (Rust.map_values (NodePaymentsGen.RoutedPayment_incoming p)) <= U64MAX /\
+               sum_N (Rust.map_values (NodePaymentsGen.RoutedPayment_outgoing p)) <= U64MAX) ->
+    exists ns' b,
+      NodePaymentsGen.gen_NodeState_htlc_fulfilled prof swarn gp ph ns ch preimage vid = Val (Rust.OkR (ns', b)) /\
+      (forall x, pre (NodePaymentsGenProofs.abs_node chs ns') x =
+                 pre (NodePaymentsGenProofs.abs_node chs ns) x
+                 || ((x =? ph) && known (NodePaymentsGenProofs.abs_node chs ns) ph)) /\
+      (forall x, known (NodePaymentsGenProofs.abs_node chs ns') x = known (NodePaymentsGenProofs.abs_node chs ns) x) /\
+      (forall x c, led (NodePaymentsGenProofs.abs_node chs ns') x c = led (NodePaymentsGenProofs.abs_node chs ns) x c) /\
+      (forall x, inv (NodePaymentsGenProofs.abs_node chs ns') x = inv (NodePaymentsGenProofs.abs_node chs ns) x).
+Proof. exact NodePaymentsGenProofs.gen_fulfil_is_model. Qed.
+Print Assumptions C06_fulfil_is_source.
+
+(** The pruning decision of the heartbeat: NodeState::is_forwarded_payment_prunable (translated) says
+    "prune" for a record exactly when the model's [prunable] holds AND there is no issued invoice for
+    the hash - the model does not have issued invoices.  (prune_forwarded_payments, which applies the
+    decision with `retain`, is not translated.) *)
+Theorem C06_prune_is_source :
+  forall (nch : nat) (prof : profile) (chs : N -> pchan) (ns : NodePaymentsGen.NodeState) (h : N)
+         (p : NodePaymentsGen.RoutedPayment),
+    NodePaymentsGenProofs.wf_node nch ns ->
+    Rust.map_get (NodePaymentsGen.NodeState_payments ns) h = Some p ->
+    sum_N (Rust.map_values (NodePaymentsGen.RoutedPayment_incoming p)) <= U64MAX ->
+    sum_N (Rust.map_values (NodePaymentsGen.RoutedPayment_outgoing p)) <= U64MAX ->
+    NodePaymentsGen.gen_NodeState_is_forwarded_payment_prunable prof h
+      (NodePaymentsGen.NodeState_invoices ns) (NodePaymentsGen.NodeState_issued_invoices ns) p =
+    Val (prunable nch (NodePaymentsGenProofs.abs_node chs ns) h
+         && Rust.is_none_of (Rust.map_get (NodePaymentsGen.NodeState_issued_invoices ns) h)).
+Proof. exact NodePaymentsGenProofs.gen_prunable_is_model. Qed.
+Print Assumptions C06_prune_is_source.
+
+(** The booking of a whole commitment is the source's.  NodeState::apply_payments (whole body,
+    translated in state-passing style: the entry API, the issued-invoice marking, the dummy preimage
+    under enforce_balance, the CLTV bounds read off the commitment with filter / map / min / max, and
+    RoutedPayment::apply for every hash) never panics and leaves a state whose abstraction is the
+    model's [apply_payments]: [known h := true] and [led h ch := (in_val, out_val)] for every hash of
+    the summaries, invoices and preimages untouched - for every order [ord] in which the hash set is
+    visited (twice).  Stated for summaries that hold what the model computes, for hashes without an
+    issued invoice and with enforce_balance off: the issued-invoice bookkeeping (and the register) is
+    outside the model, and under these premises that part of the code does nothing. *)
+Theorem C06_payment_booking_is_apply_payments :
+  forall (prof : profile) (swarn : String.string -> bool) (gp : CommitmentPolicyGen.SimplePolicy)
+         (ord : list N -> list N) (dp : N) (chs : N -> pchan) (ns : NodePaymentsGen.NodeState) (ch : N)
+         (im om : list (N * N)) (bd : NodePaymentsGen.BalanceDelta) (vid : N)
+         (ci : option CommitmentPolicyGen.CommitmentInfo2) (nh nc : option content),
+    (forall l, Permutation.Permutation (ord l) l) ->
+    CommitmentPolicyGen.SimplePolicy_enforce_balance gp = false ->
+    let hashes := Rust.set_extend (Rust.set_extend [] (Rust.map_keys im)) (Rust.map_keys om) in
+    (forall h, In h hashes -> Rust.map_get (NodePaymentsGen.NodeState_issued_invoices ns) h = None) ->
+    (forall h, hget im h = in_val (chs ch) nh nc h) ->
+    (forall h, hget om h = out_val (chs ch) nh nc h) ->
+    (forall h, In h hashes <-> In h (sum_keys (chs ch) nh nc)) ->
+    exists ns',
+      NodePaymentsGen.gen_NodeState_apply_payments prof swarn gp ord dp ns ch im om bd vid ci = Val (Rust.OkR ns') /\
+      let s' := apply_payments (NodePaymentsGenProofs.abs_node chs ns) ch nh nc in
+      (forall x, known (NodePaymentsGenProofs.abs_node chs ns') x = known s' x) /\
+      (forall x c, led (NodePaymentsGenProofs.abs_node chs ns') x c = led s' x c) /\
+      (forall x, inv (NodePaymentsGenProofs.abs_node chs ns') x = inv s' x) /\
+      (forall x, pre (NodePaymentsGenProofs.abs_node chs ns') x = pre s' x).
+Proof. exact NodePaymentsGenProofs.gen_apply_payments_is_model. Qed.
+Print Assumptions C06_payment_booking_is_apply_payments.
